@@ -65,14 +65,17 @@ theorem clonedTask_inv (t : TaskSt) (h : TInv true t) : TInv true (clonedTask t)
 
 theorem finishedTask_inv (t : TaskSt) (o : Outcome) (h : TInv true t) : TInv false (finishedTask t o) := by
   by_cases ho : o = .panic
-  · task_tac [finishedTask, ho]
-  · task_tac [finishedTask, ho]
+  · subst ho
+    task_tac [finishedTask]
+  · have e : finishedTask t o = finishedTask t .ready := by simp [finishedTask, ho]
+    rw [e]
+    task_tac [finishedTask]
 
 theorem droppedTask_inv (t : TaskSt) (h : TInv true t) : TInv false (droppedTask t) := by
   task_tac [droppedTask]
 
 theorem clearedTask_inv (t : TaskSt) (h : TInv true t) : TInv false (dropRef (taskDropByExecutor t)) := by
-  task_tac []
+  task_tac [dropRef]
 
 theorem spawnedTask_inv (sc : List Outcome) :
     TInv true { word := TaskState.new 2, storage := .future, slot := none, script := sc,
